@@ -277,6 +277,18 @@ def ob_writer_drop(ctx, res):
     t = [up(s) for s in fn.body["stmts"]]
     lock = [i for i, s in enumerate(t) if ".lock()" in s]
     repl = [i for i, s in enumerate(t) if re.search(r"(mem::replace|mem::take)\(&mut self\.buffer_state", s)]
+    # `*closed = Some(mem::replace(&mut self.buffer_state, ..));` takes and publishes in one statement
+    both = [i for i, s in enumerate(t) if re.match(r"\*\w+ = Some\((std::)?mem::(replace|take)\(&mut self\.buffer_state", s)]
+    if len(both) == 1 and not [i for i, s in enumerate(t) if re.match(r"\*\w+ = Some\(\w+\);", s)]:
+        lock = [i for i, s in enumerate(t) if ".lock()" in s]
+        noti = [i for i, s in enumerate(t) if ".notify_one()" in s or ".notify_all()" in s]
+        lockname = re.match(r"let mut (\w+) = ", t[lock[0]]) if len(lock) == 1 else None
+        pubname = re.match(r"\*(\w+) = ", t[both[0]])
+        if len(lock) == 1 and len(noti) == 1 and lock[0] < both[0] < noti[0] and lockname and pubname.group(1) == lockname.group(1):
+            res.ok(fn, "drop: lock; *closed = Some(take buffer_state); notify; single path")
+        else:
+            res.fail("drop/sequence", fn, "drop must: lock -> move buffer_state out -> publish it as Some(state) -> notify; statements: %s" % t)
+        return
     pub = [i for i, s in enumerate(t) if re.match(r"\*\w+ = Some\(\w+\);", s)]
     noti = [i for i, s in enumerate(t) if ".notify_one()" in s or ".notify_all()" in s]
     if not (len(lock) == 1 and len(repl) == 1 and len(pub) == 1 and len(noti) == 1 and lock[0] < pub[0] < noti[0] and repl[0] < pub[0]):
